@@ -253,11 +253,12 @@ type (
 		Cond Expr
 		Body []Stmt
 	}
-	// ForRange is `for v in lo..hi` / `lo..=hi`.
+	// ForRange is `for v in lo..hi` / `lo..=hi`, optionally `:step` (Step nil = +1).
 	ForRange struct {
 		Var    string
 		T      *Type
 		Lo, Hi Expr
+		Step   Expr
 		Incl   bool
 		Body   []Stmt
 	}
@@ -462,7 +463,11 @@ func (p *printer) stmt(s Stmt) {
 		if n.Incl {
 			op = "..="
 		}
-		p.line(fmt.Sprintf("for %s in %s%s%s {", n.Var, ExprStr(n.Lo), op, ExprStr(n.Hi)))
+		step := ""
+		if n.Step != nil {
+			step = ":" + ExprStr(n.Step)
+		}
+		p.line(fmt.Sprintf("for %s in %s%s%s%s {", n.Var, ExprStr(n.Lo), op, ExprStr(n.Hi), step))
 		p.ind++
 		p.stmts(n.Body)
 		p.ind--
